@@ -445,7 +445,19 @@ class EngineBase:
         o = st.obj(r)
         if o.kind == "msg":
             return self.protomodel.havoc(self, st, r, name)
+        if o.kind == "iter":
+            return st        # position changes are declared with `advances`
         if o.kind == "list":
+            items = o.get("items")
+            if items and not any(isinstance(x, Seg) for x in items) and not any(isinstance(x, Ref) for x in items):
+                # a list of fixed shape (e.g. the four remembered terms): same length, every element unknown
+                new = []
+                for i, x in enumerate(items):
+                    if x is None:
+                        x = Opt(True, None)
+                    st, y = self.fresh_like(st, x, f"{name}[{i}]")
+                    new.append(y)
+                return st.heap_put(r, o.set("items", tuple(new)))
             seg = Seg(V.fresh_of_sort(name, V.SegSort), name)
             st = st.assume(V.seg_len(seg.const) >= 0)
             return st.heap_put(r, o.set("items", (seg,)))
